@@ -1,6 +1,7 @@
 package main
 
 import (
+	"os"
 	"fmt"
 	"go/ast"
 	"go/constant"
@@ -54,6 +55,9 @@ func (e *Env) inOld() *Env {
 type specError struct{ msg string }
 
 func (x *Exec) specFail(f string, a ...any) {
+	if os.Getenv("VC_DEBUG_SPEC") != "" {
+		fmt.Fprintf(os.Stderr, "specFail: "+f+"\n", a...)
+	}
 	panic(specError{fmt.Sprintf(f, a...)})
 }
 
@@ -606,8 +610,15 @@ func (x *Exec) eval(sx *SX, env *Env) Val {
 			return d.Res
 		}
 	case "call":
-		key := normKey(canonKey(env.pkg, strings.Trim(args[0].Atom, "|")))
+		raw := strings.Trim(args[0].Atom, "|")
+		key := normKey(canonKey(env.pkg, raw))
 		fn := x.L.Funcs[key]
+		if fn == nil {
+			// a function of another (e.g. standard library) package given by its own key
+			if f2 := x.L.Funcs[normKey(raw)]; f2 != nil {
+				key, fn = normKey(raw), f2
+			}
+		}
 		if fn == nil {
 			x.specFail("call: unknown function %s", key)
 		}
